@@ -31,7 +31,9 @@ RULE = ("all 3 x 4 x 4 combinations of state_check_now in {unset, False, True} x
         "also spelled out as None); trigger expressions whose RESULT is bool / int (numeric strings with spaces, signs, "
         "leading zeros) / str ('' vs 'x') / None vs 3 / [] vs [1] / membership in ('', 'None', 'unknown', 'unavailable'); "
         "entity names with underscores and digits in several domains; triggers made ONLY of any-change names "
-        "(e / e.a / e.*) with state_check_now unset, False and explicitly True; the closed witnesses of Props/C05; "
+        "(e / e.a / e.*) with state_check_now unset, False and explicitly True; every start-up relevant combination of "
+        "(state_check_now, state_hold, state_hold_false, initial truth) together with a @time_trigger on the SAME function "
+        "('startup' / bare / a far once() / both, above or below the @state_trigger); the closed witnesses of Props/C05; "
         "thorough: additionally every history of length <= 4 over {T, F, A, U} at 1 s spacing.  Non-trivial = at "
         "least one evaluation / match (initial check or event); distinct by payload.")
 ASSUMPTIONS = [
@@ -106,7 +108,27 @@ WITNESSES = [
     ("wu", False, True, None, None, True, [], "val", 1.25),
     ("wu", False, True, None, None, True, [[2, "A"]], "attr", 3.75),
 ]
+# C05_startup_check_once: the start-up state check happens although the same function also runs at "startup"
+# (api, check_now, S, H, b0, hist, tt, tt_above)
+TT_WITNESSES = [
+    ("dec", True, None, None, True, [], "startup", True),                  # run at definition time AND the startup run
+    ("dec", None, None, 2.5, False, [[3, "T"]], "startup", False),         # false recorded at start-up, true 3 s >= H later
+    ("dec", True, 2.5, 0, True, [[1, "F"], [2, "T"]], "bare", True),
+    ("dec", True, None, 2.5, False, [[1, "T"], [4, "F"], [7, "T"]], "startup+far", False),
+    ("dec", None, 2.5, None, False, [[1, "T"]], "far", True),
+]
 TIMEOUTS = [None, None, 1.25, 3.75, 6.25]
+# a @time_trigger on the SAME function as the @state_trigger (legacy: both live in one TrigInfo / one trigger_watch loop whose
+# head has two one-shot branches - run_on_startup, then check_state_expr_on_start - taken in consecutive iterations)
+#   startup = @time_trigger("startup"), bare = @time_trigger (same meaning), far = a once() years ahead (never fires, but
+#   the loop takes the time-out selection path), startup+far = both
+TTS = ["startup", "bare", "far", "startup+far"]
+TT_SRC = {"startup": '@time_trigger("startup")', "bare": "@time_trigger", "far": '@time_trigger("once(2031-01-01 00:00:00)")',
+          "startup+far": '@time_trigger("startup", "once(2031-01-01 00:00:00)")'}
+
+
+def tt_startup(tt):
+    return tt in ("startup", "bare", "startup+far")
 NAMEFORMS = {"val": "{e}", "attr": "{e}.a", "star": "{e}.*"}
 
 
@@ -132,14 +154,27 @@ def gen_cases(rng, tier, search):
     for api, legacy, cn, s, h, b0, hist, names, tmo in WITNESSES:
         for lg in (True, False):
             cases.append(make_case(api, lg, cn, s, h, b0, hist, names, tmo))
+    for api, cn, s, h, b0, hist, tt, above in TT_WITNESSES:
+        for lg in (True, False):
+            cases.append(make_case(api, lg, cn, s, h, b0, hist, tt=tt, tt_above=above))
+    # start-up options x a @time_trigger on the same function: every (check_now, hold, hold_false, b0) with start-up
+    # relevance gets two of the four time-trigger shapes, decorator order random
+    for cn, s, h in itertools.product(CHECK, [None, 2.5], [None, 0, 2.5]):
+        for b0 in (False, True):
+            for tt in rng.sample(TTS, 2 if tier == "quick" and not search else 4):
+                hist = rnd_hist(rng, 5)
+                extra = {"fam": rng.choice(fams), "ent": rng.choice(ENTITIES), "tt": tt, "tt_above": rng.random() < 0.5}
+                for legacy in (True, False):
+                    cases.append(make_case("dec", legacy, cn, s, h, b0, hist, **extra))
     for cn, s, h in itertools.product(CHECK, HOLDS, HOLDS):
         for b0 in (False, True):
             for _ in range(per):
                 hist = rnd_hist(rng)
                 extra = {"fam": rng.choice(fams), "ent": rng.choice(ENTITIES), "xnone": rng.random() < 0.3}
                 tmo = pick_timeout(rng, s, h, cn, "wu", b0)
+                ttx = {"tt": rng.choice(TTS), "tt_above": rng.random() < 0.5} if rng.random() < 0.12 else {}
                 for legacy in (True, False):
-                    cases.append(make_case("dec", legacy, cn, s, h, b0, hist, **extra))
+                    cases.append(make_case("dec", legacy, cn, s, h, b0, hist, **extra, **ttx))
                     cases.append(make_case("wu", legacy, cn, s, h, b0, hist, None, tmo, **extra))
     # boundary sweep of the numeric options: 0 vs 0.0 vs a very small value vs None, and equal pairs
     for cn, s, h in itertools.product(CHECK, BHOLDS, BHOLDS):
@@ -199,18 +234,26 @@ def kinds_of(names, hist):
     return [[t * 1000, KIND[names][k], i + 1] for i, (t, k) in enumerate(hist)]
 
 
-def make_case(api, legacy, cn, s, h, b0, hist, names=None, timeout=None, fam="bool", ent="pyscript.x", xnone=False):
+def make_case(api, legacy, cn, s, h, b0, hist, names=None, timeout=None, fam="bool", ent="pyscript.x", xnone=False,
+              tt=None, tt_above=False):
     if api == "dec":
         timeout = None
+    else:
+        tt = None
     if names:
         fam = "bool"
     line = "C05 " + sx([api + ("n" if names else ""), "legacy" if legacy else "new", eff_check(api, cn),
                         "none" if s is None else ms(s), "none" if h is None else ms(h), b0, kinds_of(names, hist),
-                        "none" if timeout is None else ms(timeout)])
+                        "none" if timeout is None else ms(timeout), tt_startup(tt)])
     tags = [api, "legacy" if legacy else "new", f"check_now={cn}", f"hold={s!r}", f"hold_false={h!r}", f"b0={b0}",
             f"names={names}", f"timeout={timeout!r}", f"fam={fam}", f"ent={ent}"]
     if xnone:
         tags.append("bv:options-explicit-None")
+    if tt:
+        tags.append(f"time_trigger={tt}")
+        tags.append("time_trigger:" + ("above" if tt_above else "below"))
+        if tt_startup(tt) and (eff_check(api, cn) or h is not None):
+            tags.append("startup-run+startup-state-check")
     if s is not None and s == h:
         tags.append("bv:hold==hold_false")
     if timeout is not None and timeout == h:
@@ -220,7 +263,8 @@ def make_case(api, legacy, cn, s, h, b0, hist, names=None, timeout=None, fam="bo
     for _, k in hist:
         tags.append("ev:" + k)
     return Case({"api": api, "legacy": legacy, "check_now": cn, "hold": s, "hold_false": h, "b0": b0, "hist": hist,
-                 "names": names, "timeout": timeout, "fam": fam, "ent": ent, "xnone": xnone}, line, tags=tags)
+                 "names": names, "timeout": timeout, "fam": fam, "ent": ent, "xnone": xnone, "tt": tt,
+                 "tt_above": bool(tt_above)}, line, tags=tags)
 
 
 # ------------------------------------------------------------------ the real code
@@ -245,7 +289,10 @@ def trig_src(p):
 def script_src(p):
     trig = trig_src(p)
     if p["api"] == "dec":
-        return (f'@state_trigger("{trig}"{kw_src(p)})\n'
+        st = f'@state_trigger("{trig}"{kw_src(p)})\n'
+        if p.get("tt"):
+            st = (TT_SRC[p["tt"]] + "\n" + st) if p.get("tt_above") else (st + TT_SRC[p["tt"]] + "\n")
+        return (st +
                 "def f(**kw):\n"
                 "    c = kw.get('context')\n"
                 "    rec('run', c.id if c is not None else None, kw.get('trigger_type'))\n")
@@ -300,7 +347,7 @@ def run_one(p):
             await env.settle(0)
         last = p["hist"][-1][0] if p["hist"] else 0
         await env.settle_until(t0 + last + 12)
-        out = []
+        out, timed = [], []
         for r in env.records:
             if r[1] != "run":
                 continue
@@ -308,10 +355,15 @@ def run_one(p):
             a = 0 if v is None else (int(v[1:]) if isinstance(v, str) and v[:1] == "c" and v[1:].isdigit() else -1)
             if r[3] == "timeout":
                 a = "timeout"
+            elif r[3] == "time" and p.get("tt"):
+                # runs of the @time_trigger on the same function: listed after the state runs (their order relative to
+                # a state run at the same instant differs between the subsystems and is not part of the property)
+                timed.append([int(round((r[0] - t0) * 1000)), "time"])
+                continue
             elif r[3] != "state":
                 a = -2
             out.append([int(round((r[0] - t0) * 1000)), a])
-        return out
+        return out + sorted(timed)
 
     try:
         return {"runs": run_ha({}, p["legacy"], body)}
@@ -402,7 +454,8 @@ def timeline(p):
     if pending is not None:
         runs.append([pending[0] + S, pending[1]])
     if api != "wu":
-        return runs
+        # a "startup" @time_trigger on the same function runs it once at definition time, independently of the state trigger
+        return runs + ([[0, "time"]] if tt_startup(p.get("tt")) else [])
     if T is not None and (not runs or runs[0][0] >= T):
         return [[T, "timeout"]]         # nothing triggered before the overall timeout
     return runs[:1]
@@ -415,7 +468,7 @@ def split(outline):
     p = parse_sx("(" + outline[3:] + ")")
 
     def runs(x):
-        return [[int(r[0]), r[1] if r[1] == "timeout" else int(r[1])] for r in x[1]]
+        return [[int(r[0]), r[1] if r[1] in ("timeout", "time") else int(r[1])] for r in x[1]]
     return json.dumps({"m": runs(p[0]), "s": runs(p[1])}), json.dumps({"spec": runs(p[1]), "noties": p[2][1]})
 
 
@@ -469,6 +522,7 @@ def classify(c, reason):
         shape += ",hold_false" if p["hold_false"] is not None else ""
         shape += ",names-only" if p.get("names") else ""
         shape += ",timeout" if p.get("timeout") is not None else ""
+        shape += ",time_trigger" if p.get("tt") else ""
         return f"unexplained:{p['api']}:{'legacy' if p['legacy'] else 'new'}:{shape}"
     return cat
 
@@ -477,7 +531,7 @@ def replay_cases(obj):
     p = obj["case"]
     return [make_case(p["api"], p["legacy"], p["check_now"], p["hold"], p["hold_false"], p["b0"], p["hist"],
                       p.get("names"), p.get("timeout"), p.get("fam", "bool"), p.get("ent", "pyscript.x"),
-                      p.get("xnone", False))]
+                      p.get("xnone", False), p.get("tt"), p.get("tt_above", False))]
 
 
 def shrink(c, reason):
@@ -495,7 +549,7 @@ def shrink(c, reason):
             q["hist"] = p["hist"][:i] + p["hist"][i + 1:]
             c2 = make_case(q["api"], q["legacy"], q["check_now"], q["hold"], q["hold_false"], q["b0"], q["hist"],
                            q.get("names"), q.get("timeout"), q.get("fam", "bool"), q.get("ent", "pyscript.x"),
-                           q.get("xnone", False))
+                           q.get("xnone", False), q.get("tt"), q.get("tt_above", False))
             try:
                 run_impl([c2])
                 c2.model, c2.spec = split(common.drive([c2.line])[0])
